@@ -295,21 +295,34 @@ func (e *scEval) run(fr *scFrame, b *ssa.BasicBlock, idx int, pred *ssa.BasicBlo
 				fr.env[ins] = scVal{k: kPred, set: scCmpSetTbl(y.tbl, ins.Op, x.n, false)}
 			case x.k == kAbsInt && y.k == kConst && ins.Op == token.SUB && y.n == 1:
 				fr.env[ins] = scVal{k: kAbsInt, n: x.n - 1, ge: x.ge, lenM1: x.tag == "len"}
-			case x.k == kAbsInt && y.k == kConst && ins.Op == token.EQL:
+			case x.k == kAbsInt && y.k == kConst && (ins.Op == token.EQL || ins.Op == token.NEQ):
+				eq := false
 				if x.ge {
 					if y.n < x.n {
-						fr.env[ins] = scVal{k: kBool, b: false}
+						eq = false
 					} else {
 						panic("undecidable absint compare")
 					}
 				} else {
-					fr.env[ins] = scVal{k: kBool, b: x.n == y.n}
+					eq = x.n == y.n
 				}
+				fr.env[ins] = scVal{k: kBool, b: eq == (ins.Op == token.EQL)}
 			case x.k == kAbsInt && x.tag == "lenpushed" && y.k == kConst && ins.Op == token.LEQ:
 				fr.env[ins] = scVal{k: kUnknown, tag: fmt.Sprintf("depth<=%d", y.n)}
 				e.depthBounds = append(e.depthBounds, y.n)
-			case x.k == kConst && y.k == kConst && ins.Op == token.EQL:
-				fr.env[ins] = scVal{k: kBool, b: x.n == y.n}
+			case x.k == kAbsInt && x.tag == "lenpushed" && y.k == kConst && ins.Op == token.LSS:
+				// len < n+1 is len <= n
+				fr.env[ins] = scVal{k: kUnknown, tag: fmt.Sprintf("depth<=%d", y.n-1)}
+				e.depthBounds = append(e.depthBounds, y.n-1)
+			case x.k == kAbsInt && x.tag == "lenpushed" && y.k == kConst && ins.Op == token.GTR:
+				// the same test with its edges swapped
+				fr.env[ins] = scVal{k: kUnknown, tag: fmt.Sprintf("depth>%d", y.n)}
+				e.depthBounds = append(e.depthBounds, y.n)
+			case x.k == kAbsInt && x.tag == "lenpushed" && y.k == kConst && ins.Op == token.GEQ:
+				fr.env[ins] = scVal{k: kUnknown, tag: fmt.Sprintf("depth>%d", y.n-1)}
+				e.depthBounds = append(e.depthBounds, y.n-1)
+			case x.k == kConst && y.k == kConst && (ins.Op == token.EQL || ins.Op == token.NEQ):
+				fr.env[ins] = scVal{k: kBool, b: (x.n == y.n) == (ins.Op == token.EQL)}
 			case x.tag == "load.err" || y.tag == "load.err":
 				fr.env[ins] = scVal{k: kUnknown, tag: "errcmp"}
 			}
@@ -446,6 +459,11 @@ func (e *scEval) run(fr *scFrame, b *ssa.BasicBlock, idx int, pred *ssa.BasicBlo
 				of := fr.clone()
 				of.over = true
 				return append(res, e.run(of, b.Succs[1], 0, b, cset, depth)...)
+			case strings.HasPrefix(c.tag, "depth>"):
+				res := e.run(fr.clone(), b.Succs[1], 0, b, cset, depth)
+				of := fr.clone()
+				of.over = true
+				return append(res, e.run(of, b.Succs[0], 0, b, cset, depth)...)
 			default:
 				panic(fmt.Sprintf("undecidable branch in %s: %s (%+v)", fr.fn.Name(), ins.Cond, c))
 			}
@@ -1710,7 +1728,7 @@ func ruleDriver(c *Ctx) {
 						continue
 					}
 					// on the false edge the loop continues without touching start: the successor is the header itself
-					if iff.Block().Succs[1] != h {
+					if !straightToNextIteration(iff.Block().Succs[1], h) {
 						bad = "a byte whose opcode is below scanSkipSpace is not simply kept (the false edge of the drop test does not go straight to the next byte)"
 					}
 				}
@@ -1738,7 +1756,7 @@ func ruleDriver(c *Ctx) {
 				for _, r2 := range *bo.Referrers() {
 					if iff, ok := r2.(*ssa.If); ok {
 						h := innermostLoopHeader(iff.Block())
-						if h != nil && iff.Block().Succs[0] == h {
+						if h != nil && straightToNextIteration(iff.Block().Succs[0], h) {
 							bad = ""
 						} else if h != nil {
 							// continue may go through an empty block
@@ -1827,11 +1845,34 @@ func ruleDriver(c *Ctx) {
 									}
 								}
 							}
+							// counting down: φ(depth, φ-1) while φ > 0 runs depth times as well
+							var downFrom *ssa.Parameter
+							down := false
+							for _, e := range phi.Edges {
+								if dp, ok := e.(*ssa.Parameter); ok {
+									downFrom = dp
+								}
+								if bo, ok := e.(*ssa.BinOp); ok && bo.X == ssa.Value(phi) {
+									if k, ok := intConst(bo.Y); ok && ((bo.Op == token.SUB && k == 1) || (bo.Op == token.ADD && k == -1)) {
+										down = true
+									}
+								}
+							}
+							if downFrom != nil && down {
+								for _, r := range *phi.Referrers() {
+									if bo, ok := r.(*ssa.BinOp); ok && bo.X == ssa.Value(phi) {
+										if k, ok := intConst(bo.Y); ok && ((bo.Op == token.GTR && k == 0) || (bo.Op == token.GEQ && k == 1) || (bo.Op == token.NEQ && k == 0)) {
+											depthP = downFrom
+											okLoop = true
+										}
+									}
+								}
+							}
 							if !start || !step {
 								continue
 							}
 							for _, r := range *phi.Referrers() {
-								if bo, ok := r.(*ssa.BinOp); ok && bo.Op == token.LSS && bo.X == ssa.Value(phi) {
+								if bo, ok := r.(*ssa.BinOp); ok && (bo.Op == token.LSS || bo.Op == token.NEQ) && bo.X == ssa.Value(phi) {
 									if dp, ok := bo.Y.(*ssa.Parameter); ok {
 										depthP = dp
 										okLoop = true
@@ -1914,25 +1955,52 @@ func ruleDriver(c *Ctx) {
 			}
 			switch k {
 			case scanEnd:
-				// must be dominated by an endTop == true edge
-				dom := false
-				for _, bb := range eof.Blocks {
-					iff, ok := bb.Instrs[len(bb.Instrs)-1].(*ssa.If)
-					if !ok {
-						continue
+				// every path to this return takes an endTop == true edge, with no step in between
+				type st struct {
+					bb   *ssa.BasicBlock
+					know bool
+				}
+				seen := map[st]bool{}
+				okAll := true
+				var walk func(bb *ssa.BasicBlock, know bool)
+				walk = func(bb *ssa.BasicBlock, know bool) {
+					if seen[st{bb, know}] || !okAll {
+						return
 					}
-					cv, neg := stripNot(iff.Cond)
-					if _, fr, ok := fieldLoad(cv); ok && fr.Field == "endTop" {
-						s := 0
-						if neg {
-							s = 1
+					seen[st{bb, know}] = true
+					for _, ins := range bb.Instrs {
+						if c, isCall := ins.(*ssa.Call); isCall {
+							for _, sc := range calls {
+								if sc == c {
+									know = false
+								}
+							}
 						}
-						if edgeDominates(bb, s, r.Block()) {
-							dom = true
+					}
+					if bb == r.Block() {
+						if !know {
+							okAll = false
 						}
+						return
+					}
+					iff, isIf := lastInstr(bb).(*ssa.If)
+					for si, sx := range bb.Succs {
+						k2 := know
+						if isIf {
+							cv, neg := stripNot(iff.Cond)
+							if _, fr, ok := fieldLoad(cv); ok && fr.Field == "endTop" {
+								trueSucc := 0
+								if neg {
+									trueSucc = 1
+								}
+								k2 = si == trueSucc
+							}
+						}
+						walk(sx, k2)
 					}
 				}
-				if !dom {
+				walk(eof.Blocks[0], false)
+				if !okAll {
 					bad = "eof reports success without endTop being set"
 				}
 			case scanError:
@@ -2168,4 +2236,45 @@ func refOpcode(s rstate, top byte, depth int, c byte, t rtrans) string {
 		return "scanArrayValue"
 	}
 	return "scanContinue"
+}
+
+
+// straightToNextIteration: from block s the loop with header h starts its next iteration and
+// nothing else happens on the way: s is the header, or a chain of blocks that hold only the
+// loop's own counter update (values used by nothing but phis of the header) and jumps.
+func straightToNextIteration(s, h *ssa.BasicBlock) bool {
+	for steps := 0; steps < 4; steps++ {
+		if s == h {
+			return true
+		}
+		if len(s.Succs) != 1 {
+			return false
+		}
+		for _, ins := range s.Instrs {
+			switch x := ins.(type) {
+			case *ssa.Jump, *ssa.DebugRef:
+			case *ssa.Phi:
+				// a merge of loop-carried values in the post block: it computes nothing
+				for _, r := range *x.Referrers() {
+					if p, ok := r.(*ssa.Phi); !ok || p.Block() != h {
+						if _, isDbg := r.(*ssa.DebugRef); !isDbg {
+							return false
+						}
+					}
+				}
+			case *ssa.BinOp:
+				for _, r := range *x.Referrers() {
+					if p, ok := r.(*ssa.Phi); !ok || p.Block() != h {
+						if _, isDbg := r.(*ssa.DebugRef); !isDbg {
+							return false
+						}
+					}
+				}
+			default:
+				return false
+			}
+		}
+		s = s.Succs[0]
+	}
+	return false
 }
